@@ -82,7 +82,12 @@ impl<F: Read + Write + Seek> Replayer<F> {
                         }
                         Step::HReadExact { n, .. } => {
                             let mut b = vec![0u8; *n];
-                            s.read_exact(&mut b)?;
+                            let pos = s.stream_position()?;
+                            if engine::use_vectored_exact(*n, pos) {
+                                engine::read_exact_vectored(s, &mut b)?;
+                            } else {
+                                s.read_exact(&mut b)?;
+                            }
                             format!("read_exact {:016x}", fnv64(&b))
                         }
                         Step::HFill { eighths, .. } => {
